@@ -110,6 +110,12 @@ def _cases(tier, rng):
         # was loaded in this process; the run under test replaces it (cleanup=True): every later load shows this run
         yield {"prog": prog, "storage": STORAGES[(q + 1) % 3], "scoped": False,
                "after_loaded_run": progs.gen_map_program(rng, n_funcs=rng.randint(1, 2), allow_generator=False)}
+        # history: the folder held an earlier complete run of the *same* program given other input values, loaded in this
+        # process through every entry point; the run under test replaces it
+        yield {"prog": prog, "storage": STORAGES[(q + 2) % 3], "scoped": False, "after_loaded_same": True}
+        # history: after the run under test returned, a further map on the folder is *refused* for its arguments (an
+        # index name no MapSpec has / an index out of range): the folder still yields what the run produced
+        yield {"prog": prog, "storage": STORAGES[q % 3], "scoped": False, "then_refused": ("unknown", "range")[q % 2]}
         # an input whose class is defined in __main__ of the process that runs the map (a script, a notebook)
         scalars = [n for n, d in prog["inputs"].items() if not d.get("omit")]
         if scalars:
@@ -148,15 +154,17 @@ def _info(ri):
             "defaults": {k: progs.to_nested(v) for k, v in ri.defaults.items()}}
 
 
-def _loaded_run(prog0, folder, storage):
-    """An earlier complete run of another program into the folder, loaded through every entry point in this process."""
+def _loaded_run(prog0, folder, storage, inputs=None, mk=None, p0=None):
+    """An earlier complete run (of another program, or of this one given other values) into the folder, loaded through
+    every entry point in this process."""
     from pipefunc.map import load_outputs, load_xarray_dataset
     from pipefunc.map._run_info import RunInfo
     try:
-        p0 = progs.build_pipeline(prog0)
-        p0.map(progs.real_inputs(prog0), run_folder=folder, parallel=False, storage=storage, **progs.map_kwargs(prog0))
-        for f in prog0["funcs"]:
-            for o in f["outputs"]:
+        p0 = p0 or progs.build_pipeline(prog0)
+        p0.map(inputs if inputs is not None else progs.real_inputs(prog0), run_folder=folder, parallel=False,
+               storage=storage, **(mk if mk is not None else progs.map_kwargs(prog0)))
+        for f in p0.functions:
+            for o in ((f.output_name,) if isinstance(f.output_name, str) else f.output_name):
                 load_outputs(o, run_folder=folder)
         RunInfo.load(folder)
         load_xarray_dataset(run_folder=folder)
@@ -189,6 +197,8 @@ def _check(case):
         if case.get("after_died_run"):
             _died_run(p, real_in, folder, stor, mk)
             extra = {"cleanup": False}
+        if case.get("after_loaded_same"):
+            _loaded_run(prog, folder, stor, inputs={k: _primed(v) for k, v in real_in.items()}, mk=mk, p0=p)
         if case.get("after_loaded_run"):
             _loaded_run(case["after_loaded_run"], folder, ("dict", "file_array")[len(prog["funcs"]) % 2])
         pool = None
@@ -216,6 +226,15 @@ def _check(case):
         for o in outs:
             if produced[o] != want[o]:
                 bad.append(f"run-result-differs:{o}")
+        if case.get("then_refused"):
+            ax = next((a for f in prog["funcs"] if f.get("spec") for n, axes in f["spec"]["inputs"] if n in prog["inputs"]
+                       for a in axes if a is not None), None)
+            fixed = {"no_such_index_name": 0} if case["then_refused"] == "unknown" or ax is None else {ax: 10**6}
+            try:
+                p.map(real_in, run_folder=folder, **{"parallel": False, "storage": stor, **mk, "fixed_indices": fixed})
+                return bad  # accepted (C06's business): this history is not the one under test
+            except (ValueError, IndexError, KeyError):
+                pass
         given = {"inputs": {k: progs.to_nested(v) for k, v in real_in.items()}}
         info0 = None
         # (i) + (iii): same process, twice
@@ -238,6 +257,7 @@ def _check(case):
                 bad.append("RunInfo.load not repeatable")
             if inf["inputs"] != given["inputs"]:
                 bad.append(f"RunInfo.inputs differ: {inf['inputs']} vs {given['inputs']}")
+        xr_same = _xr_summary(folder)
         # shapes/masks/mapspecs/storage recorded in the folder round-trip unchanged w.r.t. the run's own RunInfo
         # (ii) fresh interpreter after dropping everything
         del res, p
@@ -255,6 +275,12 @@ def _check(case):
                 bad.append(f"fresh-process-load:{o}: got {str(child['outputs'][o])[:150]} produced {str(produced[o])[:100]}")
         cinfo = dict(child["info"])
         xr = cinfo.pop("xr")
+        if json.loads(json.dumps(xr_same)) != xr:
+            d = next((k for k in set(xr) | set(xr_same) if xr.get(k) != json.loads(json.dumps(xr_same)).get(k)), "?") \
+                if isinstance(xr, dict) and isinstance(xr_same, dict) else "?"
+            bad.append(f"load_xarray_dataset in the process that ran the map differs from a fresh interpreter's at {d}: "
+                       f"{str(xr_same.get(d) if isinstance(xr_same, dict) else xr_same)[:120]} vs "
+                       f"{str(xr.get(d) if isinstance(xr, dict) else xr)[:120]}")
         if cinfo != info0:
             bad.append(f"fresh-process-RunInfo differs: {cinfo} vs {info0}")
         if isinstance(xr, dict) and "__error__" in xr:
@@ -281,6 +307,19 @@ def _check(case):
         return bad
     finally:
         shutil.rmtree(folder, ignore_errors=True)
+
+
+def _xr_summary(folder):
+    """What load_xarray_dataset shows, in the form the fresh interpreter reports it."""
+    try:
+        from pipefunc.map import load_xarray_dataset
+        ds = load_xarray_dataset(run_folder=folder)
+        out = {str(k): [list(map(str, ds[k].dims)), progs.xr_nested(ds[k].values)] for k in ds.data_vars}
+        out["__coords__"] = {str(k): [str(x) for x in ds.coords[k].values.tolist()] for k in ds.coords
+                             if ds.coords[k].ndim == 1}
+        return out
+    except Exception as e:  # noqa: BLE001
+        return {"__error__": type(e).__name__ + ": " + str(e)[:200]}
 
 
 def _spoil(raw):
@@ -334,7 +373,8 @@ def _died_run(p, real_in, folder, stor, mk):
 
 def _describe(case):
     return {"program": progs.describe(case["prog"]), "storage": case["storage"], "scoped": case.get("scoped", False),
-            "after_died_run": bool(case.get("after_died_run")), "after_partial_run": bool(case.get("after_partial_run"))}
+            "after_died_run": bool(case.get("after_died_run")), "after_partial_run": bool(case.get("after_partial_run")),
+            "after_loaded_same": bool(case.get("after_loaded_same")), "then_refused": case.get("then_refused")}
 
 
 def bounded_checks():
